@@ -16,12 +16,14 @@ def instances(tier):
         yield 'w16-len3', dict(BASE, addr_bits=16, max_len=3), 'AlphaC16', None
         yield 'w16-window', dict(BASE, addr_bits=16, max_len=3, win_start=2, win_end=12, fill=255), 'AlphaC16', None
         yield 'rows-len3', dict({'page_size': 4, 'origin': 0}, addr_bits=16, max_len=3), 'AlphaC16rows', None
+        yield 'top-of-space-len3', dict({'page_size': 8, 'origin': 0}, addr_bits=5, max_len=3), 'AlphaC02top', None
         yield 'w8-sim6', dict(BASE, addr_bits=8, max_len=6), 'AlphaC16', 'num=1200'
         yield 'w24-sim6', dict(BASE, addr_bits=24, max_len=6, origin=70000, win_start=69990), 'AlphaC16', 'num=1200'
     else:
         yield 'w16-len4', dict(BASE, addr_bits=16, max_len=4), 'AlphaC16', None
         yield 'w16-window', dict(BASE, addr_bits=16, max_len=4, win_start=2, win_end=12, fill=255), 'AlphaC16', None
         yield 'rows-len4', dict({'page_size': 4, 'origin': 0}, addr_bits=16, max_len=4), 'AlphaC16rows', None
+        yield 'top-of-space-len4', dict({'page_size': 8, 'origin': 0}, addr_bits=5, max_len=4), 'AlphaC02top', None
         yield 'w8-len3', dict(BASE, addr_bits=8, max_len=3), 'AlphaC16', None
         yield 'w24-len3', dict(BASE, addr_bits=24, max_len=3, origin=70000, win_start=69990), 'AlphaC16', None
         yield 'w16-sim9', dict(BASE, addr_bits=16, max_len=9), 'AlphaC16', 'num=10000'
